@@ -4,10 +4,7 @@ CONSTANTS
   MaxWrites = 3
   MaxReads = 1
   Perpetual = FALSE
-  MutNoBarrier = FALSE
-  MutOnlyOldSlot = FALSE
-  MutOnlyNewSlot = FALSE
-  MutLoadFirst = FALSE
+  Muts <- MutsNone
 SPECIFICATION Spec
 INVARIANTS Safe CurrentAlive NoLeak LockBalanced MutexOwned ReadWaitFree TypeOK
 SYMMETRY Perms
